@@ -258,7 +258,103 @@ def main():
             cfg = Cfg(retries=0, req_size=rq, rsp_size=5, **kw)
             run.case((label, "req", rq, repr(sorted(kw.items()))), sample={"config_class": label, "config": kw, "req_size": rq}, sample_key=(label, "req"))
             evaluate(run, label, cfg)
-    run.finish(require=("scenarios", "response_frames_compared", "request_frames_compared", "outcomes_consistent_with_limits"))
+    # single faults around the first segment / first acknowledgement: the window used before and after must stay within
+    # what the other side granted (the C05 wire observer is reused as a second monitor of this property)
+    from ..txn import check_wire
+    from ..fnet import DROP, DUP, DELAY
+    for cw, sw in itertools.product([1, 2, 8, 127], repeat=2):
+        for direction in ("request", "response"):
+            idx += 1
+            if not run.mine(idx):
+                continue
+            kw = dict(c_max=50, s_max=50, c_maxsegs=64, s_maxsegs=64, c_win=cw, s_win=sw, iam=rng.random() < 0.5, retries=2)
+            cfg0 = Cfg(req_size=400 if direction == "request" else 5, rsp_size=400 if direction == "response" else 5, **kw)
+            for k in range(0, 6):
+                for act in ((DROP,), (DUP,), (DELAY, 1.0)):
+                    cfg = Cfg(**cfg0.describe())
+                    res = run_scenario(cfg, Plan({k: act}), extra_after=5.0)
+                    found = []
+                    check_wire(res, lambda key, d: found.append((key, d)))
+                    stats = {}
+                    check_limits(res, lambda key, d: found.append((key, d)), stats)
+                    run.case(("fault", direction, cw, sw, k, act[0]), sample={"config_class": "window-under-single-fault", "windows": [cw, sw], "fault": [k, act[0]]},
+                             sample_key=("fault", direction))
+                    run.count("window_fault_scenarios")
+                    for key, d in found:
+                        if key in ("more-unacknowledged-segments-than-window", "window-field-out-of-range", "actual-window-exceeds-proposed") or not key.startswith(("sequence", "single")):
+                            run.violation(key + "/under-single-fault", {"config": cfg.describe(), "plan": {str(k): list(act)}, "detail": d})
+    # histories in both directions between two devices that know each other through I-Am: what a peer announced must
+    # not be 'improved' by traffic it sends later
+    for i in range((400 if thorough else 60) // (run.shard[1] if thorough else 1)):
+        history_case(run, rng, i)
+    run.finish(require=("scenarios", "response_frames_compared", "request_frames_compared", "outcomes_consistent_with_limits", "history_requests"))
+
+
+def history_case(run, rng, i):
+    """two stacks, both able to ask and to answer; capabilities exchanged by I-Am; several transactions in random directions"""
+    from ..vclock import CLOCK as CK
+    from ..fnet import FaultNet
+    from ..stacks import Stack, DirectApp
+    from ..txn import exchange_iam
+    CK.reset()
+    lan = FaultNet("lan", Plan())
+    events = []
+    caps = {}
+    stacks = {}
+    for addr in (1, 2):
+        seg = rng.choice(SEGS)
+        mx = rng.choice([50, 128, 206, 480])
+        caps[str(addr)] = {"seg": seg, "max": mx}
+        stacks[addr] = Stack(lan, addr, events, "d%d" % addr, DirectApp, window=rng.choice([1, 2, 8]), app_timeout=3000, segmentationSupported=seg,
+                             maxApduLengthAccepted=mx, maxSegmentsAccepted=rng.choice([None, 4, 16, 64]), numberOfApduRetries=0, apduTimeout=3000,
+                             apduSegmentTimeout=2000)
+    CK.settle()
+    exchange_iam(stacks[1], stacks[2])
+    wit = {"capabilities": caps, "steps": []}
+    token = 7000
+    for step in range(rng.randrange(2, 6)):
+        a = rng.choice([1, 2])
+        b = 3 - a
+        token += 1
+        rq = rng.choice([5, 5, 60, 150, 400, 900])
+        rp = rng.choice([5, 5, 60, 150, 400])
+        stacks[b].app.behaviour[token] = ("ack", rp, 0.0)
+        wit["steps"].append((a, b, rq, rp))
+        n0 = len(lan.frames)
+        e0 = len(events)
+        try:
+            stacks[a].send(stacks[a].cpt_request(b, token, rq), token)
+            CK.drive(duration=40.0, max_steps=300000)
+        except Exception as err:
+            run.violation("history-step-raised/" + type(err).__name__, dict(wit, error=repr(err)[:100]))
+            return
+        run.count("history_requests")
+        outs = [e for e in events[e0:] if e["ev"] == "confirmation" and e["who"] == "d%d" % a]
+        # limits of the receiver b as announced in its I-Am
+        over = False
+        segmented = False
+        for rec in lan.frames[n0:]:
+            d = decode_frame(rec)
+            ap = d.get("apci")
+            if not ap or d["src"] != str(a) or ap["type"] != W.CONFIRMED:
+                continue
+            if d["apdu_len"] > caps[str(b)]["max"]:
+                run.violation("request-apdu-longer-than-peer-announced/in-history", dict(wit, apdu_len=d["apdu_len"], peer_max=caps[str(b)]["max"]))
+                return
+            if ap["seg"]:
+                segmented = True
+                if caps[str(b)]["seg"] not in CAN_RX:
+                    run.violation("segmented-request-to-peer-that-cannot-receive-segments/in-history", dict(wit, peer=caps[str(b)]["seg"]))
+                    return
+        req_len = 4 + enc_len(token, rq)
+        impossible = req_len > caps[str(b)]["max"] and not (caps[str(a)]["seg"] in CAN_TX and caps[str(b)]["seg"] in CAN_RX)
+        if impossible and (not outs or outs[0].get("outcome") != "abort"):
+            run.violation("request-beyond-peer-limits-not-aborted/in-history", dict(wit, outcome=outs[0].get("outcome") if outs else None))
+            return
+        if not outs:
+            run.violation("no-outcome/in-history", dict(wit))
+            return
+    run.case(("history", run.shard[0], i), sample={"history": wit}, sample_key=("history", i < 1))
 
 
 def replay(run):
